@@ -50,6 +50,9 @@ package jsonapi
 //@ loop 2 invariant frame: unchanged(heap[string]) && unchanged(heap[SimpleURL]) && unchanged(heap[[]string]) && unchanged(maps[map[string][]string]) && unchanged(maps[map[string]any]) && unchanged(heap[Filter]) && unchanged(heap[uint8])
 //@ loop 2 invariant values: values != nil && values != sURL.Fields && (forall k string :: k in values ==> len(values[k]) >= 1)
 
+// targetsExist: every relationship's target type exists (a consequence of coherent(schema), C15).
+//@ spec targetsExist(s *Schema) = forall i int, k string :: 0 <= i && i < len(s.Types) && k in s.Types[i].Rels ==> hasType(s, s.Types[i].Rels[k].ToType)
+
 // NewParams: proved panic-free with error-xor-result; its frame (it only writes
 // objects it allocates) is declared and assumed (flag noframe), not yet proved.
 //@ spec pFresh(params *Params) = forall k string :: k in params.Fields ==> fresh(params.Fields[k])
